@@ -10,6 +10,8 @@ import Mathlib.Data.Real.Basic
 import Mathlib.Tactic.Ring
 import Mathlib.Tactic.FieldSimp
 import Mathlib.Tactic.Linarith
+import Mathlib.Tactic.Abel
+import Mathlib.Algebra.Order.BigOperators.Group.Finset
 
 set_option linter.unusedSectionVars false
 
@@ -265,5 +267,616 @@ theorem q_from_aggregate (W : ι → ι → ℝ) (c : ι → μ) (γ s : ℝ) (h
   field_simp
 
 end aggregate
+
+/-! ## Row / column statistics (spec functions `cnt1 pos1 neg1 sum1 sumF1 sumFp1 sumFn1 dot1`, `ccnt cpos cneg csum`,
+`totF totFp totFn dot2` of engine/pyvc/core.py).  The SMT functions take integer-indexed arrays and a bound `n` and only
+look at indices `0 ≤ i < n`; here the index type is an arbitrary finite type `ι` (think `Fin n`). -/
+section stats
+open BigOperators Finset
+variable {ι : Type} [Fintype ι] [DecidableEq ι]
+
+/-- number of entries of the row satisfying `p` (generic form of `cnt`, `pos`, `neg`) -/
+noncomputable def cntP (p : ℝ → Prop) [DecidablePred p] (r : ι → ℝ) : ℕ := (univ.filter (fun y => p (r y))).card
+
+/-- `cnt1(r, n)` = #{y : r y ≠ 0} -/
+noncomputable def cnt (r : ι → ℝ) : ℕ := (Finset.univ.filter (fun y => r y ≠ 0)).card
+/-- `pos1(r, n)` = #{y : r y > 0} -/
+noncomputable def pos (r : ι → ℝ) : ℕ := (Finset.univ.filter (fun y => 0 < r y)).card
+/-- `neg1(r, n)` = #{y : r y < 0} -/
+noncomputable def neg (r : ι → ℝ) : ℕ := (Finset.univ.filter (fun y => r y < 0)).card
+/-- `sum1(r, n)` -/
+noncomputable def sum1 (r : ι → ℝ) : ℝ := ∑ y, r y
+/-- `sumF1(r, n)` for the (arbitrary) weight statistic `F` -/
+noncomputable def sumF1 (F : ℝ → ℝ) (r : ι → ℝ) : ℝ := ∑ y, F (r y)
+/-- `sumFp1(r, n)`: sum of `F` over the positive entries -/
+noncomputable def sumFp1 (F : ℝ → ℝ) (r : ι → ℝ) : ℝ := ∑ y, if 0 < r y then F (r y) else 0
+/-- `sumFn1(r, n)`: sum of `F` over the negative entries -/
+noncomputable def sumFn1 (F : ℝ → ℝ) (r : ι → ℝ) : ℝ := ∑ y, if r y < 0 then F (r y) else 0
+/-- `dot1(d, r, n)` -/
+noncomputable def dot1 (d r : ι → ℝ) : ℝ := ∑ y, d y * r y
+
+lemma cnt_eq_cntP (r : ι → ℝ) : cnt r = cntP (fun t => t ≠ 0) r := rfl
+lemma pos_eq_cntP (r : ι → ℝ) : pos r = cntP (fun t => 0 < t) r := rfl
+lemma neg_eq_cntP (r : ι → ℝ) : neg r = cntP (fun t => t < 0) r := rfl
+
+/-- a count is the sum of its indicator (over ℕ) -/
+lemma cntP_eq_sum (p : ℝ → Prop) [DecidablePred p] (r : ι → ℝ) :
+    cntP p r = ∑ y, if p (r y) then 1 else 0 := by
+  unfold cntP; rw [Finset.card_filter]
+
+/-- a count is the sum of its indicator (over ℤ) -/
+lemma cntP_cast (p : ℝ → Prop) [DecidablePred p] (r : ι → ℝ) :
+    (cntP p r : ℤ) = ∑ y, if p (r y) then (1 : ℤ) else 0 := by
+  rw [cntP_eq_sum]; push_cast; rfl
+
+/-- generic single-point update of a finite sum: Σ_z g z (r[y:=v] z) = Σ_z g z (r z) + g y v − g y (r y) -/
+lemma gsum_update {α β : Type*} [AddCommGroup α] (g : ι → β → α) (r : ι → β) (y : ι) (v : β) :
+    ∑ z, g z (Function.update r y v z) = ∑ z, g z (r z) + g y v - g y (r y) := by
+  rw [← Finset.add_sum_erase univ (fun z => g z (Function.update r y v z)) (mem_univ y),
+      ← Finset.add_sum_erase univ (fun z => g z (r z)) (mem_univ y)]
+  have : ∑ z ∈ univ.erase y, g z (Function.update r y v z) = ∑ z ∈ univ.erase y, g z (r z) := by
+    apply Finset.sum_congr rfl
+    intro z hz
+    rw [Function.update_of_ne (Finset.mem_erase.mp hz).1]
+  rw [this]; simp only [Function.update_self]; abel
+
+/-! ### 1. single-entry update of a row: `Store(r, y, v)` -/
+
+theorem cntP_update (p : ℝ → Prop) [DecidablePred p] (r : ι → ℝ) (y : ι) (v : ℝ) :
+    (cntP p (Function.update r y v) : ℤ)
+      = cntP p r + (if p v then 1 else 0) - (if p (r y) then 1 else 0) := by
+  rw [cntP_cast, cntP_cast]
+  exact gsum_update (fun _ t => if p t then (1 : ℤ) else 0) r y v
+
+/-- SMT axiom `cnt1(Store(r,y,v), n) == cnt1(r, n) + b2i(v != 0) - b2i(r[y] != 0)` -/
+theorem cnt_update (r : ι → ℝ) (y : ι) (v : ℝ) :
+    (cnt (Function.update r y v) : ℤ) = cnt r + (if v ≠ 0 then 1 else 0) - (if r y ≠ 0 then 1 else 0) :=
+  cntP_update (fun t => t ≠ 0) r y v
+
+/-- SMT axiom `pos1(Store(r,y,v), n) == pos1(r, n) + b2i(v > 0) - b2i(r[y] > 0)` -/
+theorem pos_update (r : ι → ℝ) (y : ι) (v : ℝ) :
+    (pos (Function.update r y v) : ℤ) = pos r + (if 0 < v then 1 else 0) - (if 0 < r y then 1 else 0) :=
+  cntP_update (fun t => 0 < t) r y v
+
+/-- SMT axiom `neg1(Store(r,y,v), n) == neg1(r, n) + b2i(v < 0) - b2i(r[y] < 0)` -/
+theorem neg_update (r : ι → ℝ) (y : ι) (v : ℝ) :
+    (neg (Function.update r y v) : ℤ) = neg r + (if v < 0 then 1 else 0) - (if r y < 0 then 1 else 0) :=
+  cntP_update (fun t => t < 0) r y v
+
+/-- the same three facts over ℕ, without subtraction -/
+theorem cntP_update_nat (p : ℝ → Prop) [DecidablePred p] (r : ι → ℝ) (y : ι) (v : ℝ) :
+    cntP p (Function.update r y v) + (if p (r y) then 1 else 0) = cntP p r + (if p v then 1 else 0) := by
+  have h := cntP_update p r y v
+  have : ((cntP p (Function.update r y v) + (if p (r y) then 1 else 0) : ℕ) : ℤ)
+       = ((cntP p r + (if p v then 1 else 0) : ℕ) : ℤ) := by
+    push_cast; rw [h]; ring
+  exact_mod_cast this
+
+/-- SMT axiom `sum1(Store(r,y,v), n) == sum1(r, n) + v - r[y]` -/
+theorem sum1_update (r : ι → ℝ) (y : ι) (v : ℝ) :
+    sum1 (Function.update r y v) = sum1 r + v - r y :=
+  gsum_update (fun _ t => t) r y v
+
+/-- SMT axiom `sumF1(Store(r,y,v), n) == sumF1(r, n) + F(v) - F(r[y])` (any `F`) -/
+theorem sumF1_update (F : ℝ → ℝ) (r : ι → ℝ) (y : ι) (v : ℝ) :
+    sumF1 F (Function.update r y v) = sumF1 F r + F v - F (r y) :=
+  gsum_update (fun _ t => F t) r y v
+
+/-- SMT axiom `sumFp1(Store(r,y,v), n) == sumFp1(r, n) + If(v > 0, F(v), 0) - If(r[y] > 0, F(r[y]), 0)` -/
+theorem sumFp1_update (F : ℝ → ℝ) (r : ι → ℝ) (y : ι) (v : ℝ) :
+    sumFp1 F (Function.update r y v)
+      = sumFp1 F r + (if 0 < v then F v else 0) - (if 0 < r y then F (r y) else 0) :=
+  gsum_update (fun _ t => if 0 < t then F t else 0) r y v
+
+/-- SMT axiom `sumFn1(Store(r,y,v), n) == sumFn1(r, n) + If(v < 0, F(v), 0) - If(r[y] < 0, F(r[y]), 0)` -/
+theorem sumFn1_update (F : ℝ → ℝ) (r : ι → ℝ) (y : ι) (v : ℝ) :
+    sumFn1 F (Function.update r y v)
+      = sumFn1 F r + (if v < 0 then F v else 0) - (if r y < 0 then F (r y) else 0) :=
+  gsum_update (fun _ t => if t < 0 then F t else 0) r y v
+
+/-- SMT axiom `dot1(d, Store(r,y,v), n) == dot1(d, r, n) + d[y] * (v - r[y])` -/
+theorem dot1_update (d r : ι → ℝ) (y : ι) (v : ℝ) :
+    dot1 d (Function.update r y v) = dot1 d r + d y * (v - r y) := by
+  have h := gsum_update (fun z t => d z * t) r y v
+  unfold dot1; rw [h]; ring
+
+/-! ### 2. replacing one row of a matrix: `Store(M, x, r)` -/
+
+/-- `ccnt(M, y, n)` = #{x : M x y ≠ 0} -/
+noncomputable def ccnt (M : ι → ι → ℝ) (y : ι) : ℕ := (Finset.univ.filter (fun x => M x y ≠ 0)).card
+/-- `cpos(M, y, n)` -/
+noncomputable def cpos (M : ι → ι → ℝ) (y : ι) : ℕ := (Finset.univ.filter (fun x => 0 < M x y)).card
+/-- `cneg(M, y, n)` -/
+noncomputable def cneg (M : ι → ι → ℝ) (y : ι) : ℕ := (Finset.univ.filter (fun x => M x y < 0)).card
+/-- `csum(M, y, n)` -/
+noncomputable def csum (M : ι → ι → ℝ) (y : ι) : ℝ := ∑ x, M x y
+/-- `totF(M, n)` -/
+noncomputable def totF (F : ℝ → ℝ) (M : ι → ι → ℝ) : ℝ := ∑ x, ∑ y, F (M x y)
+/-- `totFp(M, n)` -/
+noncomputable def totFp (F : ℝ → ℝ) (M : ι → ι → ℝ) : ℝ := ∑ x, ∑ y, if 0 < M x y then F (M x y) else 0
+/-- `totFn(M, n)` -/
+noncomputable def totFn (F : ℝ → ℝ) (M : ι → ι → ℝ) : ℝ := ∑ x, ∑ y, if M x y < 0 then F (M x y) else 0
+/-- `dot2(D, M, n)` -/
+noncomputable def dot2 (D M : ι → ι → ℝ) : ℝ := ∑ x, ∑ y, D x y * M x y
+
+lemma ccnt_eq_cntP (M : ι → ι → ℝ) (y : ι) : ccnt M y = cntP (fun t => t ≠ 0) (fun x => M x y) := rfl
+lemma cpos_eq_cntP (M : ι → ι → ℝ) (y : ι) : cpos M y = cntP (fun t => 0 < t) (fun x => M x y) := rfl
+lemma cneg_eq_cntP (M : ι → ι → ℝ) (y : ι) : cneg M y = cntP (fun t => t < 0) (fun x => M x y) := rfl
+lemma csum_eq_sum1 (M : ι → ι → ℝ) (y : ι) : csum M y = sum1 (fun x => M x y) := rfl
+lemma totF_eq (F : ℝ → ℝ) (M : ι → ι → ℝ) : totF F M = ∑ x, sumF1 F (M x) := rfl
+lemma totFp_eq (F : ℝ → ℝ) (M : ι → ι → ℝ) : totFp F M = ∑ x, sumFp1 F (M x) := rfl
+lemma totFn_eq (F : ℝ → ℝ) (M : ι → ι → ℝ) : totFn F M = ∑ x, sumFn1 F (M x) := rfl
+lemma dot2_eq (D M : ι → ι → ℝ) : dot2 D M = ∑ x, dot1 (D x) (M x) := rfl
+
+/-- column `y` of `M[x := r]` is column `y` of `M` with entry `x` set to `r y` -/
+lemma col_update_row {β : Type*} (M : ι → ι → β) (x : ι) (r : ι → β) (y : ι) :
+    (fun x' => Function.update M x r x' y) = Function.update (fun x' => M x' y) x (r y) := by
+  funext x'
+  by_cases h : x' = x
+  · subst h; simp
+  · simp [Function.update_of_ne h]
+
+theorem ccntP_update_row (p : ℝ → Prop) [DecidablePred p] (M : ι → ι → ℝ) (x : ι) (r : ι → ℝ) (y : ι) :
+    (cntP p (fun x' => Function.update M x r x' y) : ℤ)
+      = cntP p (fun x' => M x' y) + (if p (r y) then 1 else 0) - (if p (M x y) then 1 else 0) := by
+  rw [col_update_row]; exact cntP_update p (fun x' => M x' y) x (r y)
+
+/-- SMT axiom `ccnt(Store(M,x,r), yy, n) == ccnt(M, yy, n) + b2i(r[yy] != 0) - b2i(M[x][yy] != 0)` -/
+theorem ccnt_update_row (M : ι → ι → ℝ) (x : ι) (r : ι → ℝ) (y : ι) :
+    (ccnt (Function.update M x r) y : ℤ)
+      = ccnt M y + (if r y ≠ 0 then 1 else 0) - (if M x y ≠ 0 then 1 else 0) :=
+  ccntP_update_row (fun t => t ≠ 0) M x r y
+
+/-- SMT axiom `cpos(Store(M,x,r), yy, n) == cpos(M, yy, n) + b2i(r[yy] > 0) - b2i(M[x][yy] > 0)` -/
+theorem cpos_update_row (M : ι → ι → ℝ) (x : ι) (r : ι → ℝ) (y : ι) :
+    (cpos (Function.update M x r) y : ℤ)
+      = cpos M y + (if 0 < r y then 1 else 0) - (if 0 < M x y then 1 else 0) :=
+  ccntP_update_row (fun t => 0 < t) M x r y
+
+/-- SMT axiom `cneg(Store(M,x,r), yy, n) == cneg(M, yy, n) + b2i(r[yy] < 0) - b2i(M[x][yy] < 0)` -/
+theorem cneg_update_row (M : ι → ι → ℝ) (x : ι) (r : ι → ℝ) (y : ι) :
+    (cneg (Function.update M x r) y : ℤ)
+      = cneg M y + (if r y < 0 then 1 else 0) - (if M x y < 0 then 1 else 0) :=
+  ccntP_update_row (fun t => t < 0) M x r y
+
+/-- SMT axiom `csum(Store(M,x,r), yy, n) == csum(M, yy, n) + r[yy] - M[x][yy]` -/
+theorem csum_update_row (M : ι → ι → ℝ) (x : ι) (r : ι → ℝ) (y : ι) :
+    csum (Function.update M x r) y = csum M y + r y - M x y := by
+  rw [csum_eq_sum1, col_update_row]; exact sum1_update (fun x' => M x' y) x (r y)
+
+/-- SMT axiom `totF(Store(M,x,r), n) == totF(M, n) + sumF1(r, n) - sumF1(M[x], n)` -/
+theorem totF_update_row (F : ℝ → ℝ) (M : ι → ι → ℝ) (x : ι) (r : ι → ℝ) :
+    totF F (Function.update M x r) = totF F M + sumF1 F r - sumF1 F (M x) := by
+  rw [totF_eq, totF_eq]; exact gsum_update (fun _ row => sumF1 F row) M x r
+
+/-- SMT axiom `totFp(Store(M,x,r), n) == totFp(M, n) + sumFp1(r, n) - sumFp1(M[x], n)` -/
+theorem totFp_update_row (F : ℝ → ℝ) (M : ι → ι → ℝ) (x : ι) (r : ι → ℝ) :
+    totFp F (Function.update M x r) = totFp F M + sumFp1 F r - sumFp1 F (M x) := by
+  rw [totFp_eq, totFp_eq]; exact gsum_update (fun _ row => sumFp1 F row) M x r
+
+/-- SMT axiom `totFn(Store(M,x,r), n) == totFn(M, n) + sumFn1(r, n) - sumFn1(M[x], n)` -/
+theorem totFn_update_row (F : ℝ → ℝ) (M : ι → ι → ℝ) (x : ι) (r : ι → ℝ) :
+    totFn F (Function.update M x r) = totFn F M + sumFn1 F r - sumFn1 F (M x) := by
+  rw [totFn_eq, totFn_eq]; exact gsum_update (fun _ row => sumFn1 F row) M x r
+
+/-- SMT axiom `dot2(D, Store(M,x,r), n) == dot2(D, M, n) + dot1(D[x], r, n) - dot1(D[x], M[x], n)` -/
+theorem dot2_update_row (D M : ι → ι → ℝ) (x : ι) (r : ι → ℝ) :
+    dot2 D (Function.update M x r) = dot2 D M + dot1 (D x) r - dot1 (D x) (M x) := by
+  rw [dot2_eq, dot2_eq]; exact gsum_update (fun z row => dot1 (D z) row) M x r
+
+/-- `store2(M, x, y, v)`: single-cell update = row replacement by the updated row (used with the two groups above) -/
+theorem store2_eq (M : ι → ι → ℝ) (x y : ι) (v : ℝ) (x' y' : ι) :
+    Function.update M x (Function.update (M x) y v) x' y' = if x' = x ∧ y' = y then v else M x' y' := by
+  by_cases hx : x' = x
+  · subst hx
+    by_cases hy : y' = y
+    · subst hy; simp
+    · simp [hy]
+  · simp [hx]
+
+/-! ### 3. permutation re-indexing: `P = ixperm(M, p) = M[np.ix_(p, p)]` with `isperm(p, n)` -/
+
+/-- `ixperm(M, p)`: SMT axiom `ixperm(M,p)[x][y] == M[p[x]][p[y]]` is this definition -/
+def ixperm (M : ι → ι → ℝ) (σ : Equiv.Perm ι) : ι → ι → ℝ := fun x y => M (σ x) (σ y)
+
+/-- generic: a sum over a row of `P` is the sum over row `σ x` of `M` (any codomain, covers counts and sums) -/
+lemma gsum_perm_row {α : Type*} [AddCommMonoid α] (G : ℝ → α) (M : ι → ι → ℝ) (σ : Equiv.Perm ι) (x : ι) :
+    ∑ y, G (ixperm M σ x y) = ∑ y, G (M (σ x) y) :=
+  Equiv.sum_comp σ (fun y => G (M (σ x) y))
+
+lemma gsum_perm_col {α : Type*} [AddCommMonoid α] (G : ℝ → α) (M : ι → ι → ℝ) (σ : Equiv.Perm ι) (x : ι) :
+    ∑ x', G (ixperm M σ x' x) = ∑ x', G (M x' (σ x)) :=
+  Equiv.sum_comp σ (fun x' => G (M x' (σ x)))
+
+lemma gsum_perm_tot {α : Type*} [AddCommMonoid α] (G : ℝ → α) (M : ι → ι → ℝ) (σ : Equiv.Perm ι) :
+    ∑ x, ∑ y, G (ixperm M σ x y) = ∑ x, ∑ y, G (M x y) := by
+  rw [← Equiv.sum_comp σ (fun x => ∑ y, G (M x y))]
+  apply Finset.sum_congr rfl; intro x _
+  exact gsum_perm_row G M σ x
+
+theorem cntP_perm_row (p : ℝ → Prop) [DecidablePred p] (M : ι → ι → ℝ) (σ : Equiv.Perm ι) (x : ι) :
+    cntP p (ixperm M σ x) = cntP p (M (σ x)) := by
+  rw [cntP_eq_sum, cntP_eq_sum]; exact gsum_perm_row (fun t => if p t then 1 else 0) M σ x
+
+/-- SMT axiom `isperm(p,n) ∧ 0≤x<n → cnt1(P[x], n) == cnt1(M[p[x]], n)` -/
+theorem cnt_perm_row (M : ι → ι → ℝ) (σ : Equiv.Perm ι) (x : ι) : cnt (ixperm M σ x) = cnt (M (σ x)) :=
+  cntP_perm_row (fun t => t ≠ 0) M σ x
+/-- SMT axiom `… → pos1(P[x], n) == pos1(M[p[x]], n)` -/
+theorem pos_perm_row (M : ι → ι → ℝ) (σ : Equiv.Perm ι) (x : ι) : pos (ixperm M σ x) = pos (M (σ x)) :=
+  cntP_perm_row (fun t => 0 < t) M σ x
+/-- SMT axiom `… → neg1(P[x], n) == neg1(M[p[x]], n)` -/
+theorem neg_perm_row (M : ι → ι → ℝ) (σ : Equiv.Perm ι) (x : ι) : neg (ixperm M σ x) = neg (M (σ x)) :=
+  cntP_perm_row (fun t => t < 0) M σ x
+/-- SMT axiom `… → sum1(P[x], n) == sum1(M[p[x]], n)` -/
+theorem sum1_perm_row (M : ι → ι → ℝ) (σ : Equiv.Perm ι) (x : ι) : sum1 (ixperm M σ x) = sum1 (M (σ x)) :=
+  gsum_perm_row (fun t => t) M σ x
+/-- SMT axiom `… → sumF1(P[x], n) == sumF1(M[p[x]], n)` -/
+theorem sumF1_perm_row (F : ℝ → ℝ) (M : ι → ι → ℝ) (σ : Equiv.Perm ι) (x : ι) :
+    sumF1 F (ixperm M σ x) = sumF1 F (M (σ x)) :=
+  gsum_perm_row F M σ x
+/-- SMT axiom `… → sumFp1(P[x], n) == sumFp1(M[p[x]], n)` -/
+theorem sumFp1_perm_row (F : ℝ → ℝ) (M : ι → ι → ℝ) (σ : Equiv.Perm ι) (x : ι) :
+    sumFp1 F (ixperm M σ x) = sumFp1 F (M (σ x)) :=
+  gsum_perm_row (fun t => if 0 < t then F t else 0) M σ x
+/-- SMT axiom `… → sumFn1(P[x], n) == sumFn1(M[p[x]], n)` -/
+theorem sumFn1_perm_row (F : ℝ → ℝ) (M : ι → ι → ℝ) (σ : Equiv.Perm ι) (x : ι) :
+    sumFn1 F (ixperm M σ x) = sumFn1 F (M (σ x)) :=
+  gsum_perm_row (fun t => if t < 0 then F t else 0) M σ x
+
+theorem ccntP_perm (p : ℝ → Prop) [DecidablePred p] (M : ι → ι → ℝ) (σ : Equiv.Perm ι) (x : ι) :
+    cntP p (fun x' => ixperm M σ x' x) = cntP p (fun x' => M x' (σ x)) := by
+  rw [cntP_eq_sum, cntP_eq_sum]; exact gsum_perm_col (fun t => if p t then 1 else 0) M σ x
+
+/-- SMT axiom `isperm(p,n) ∧ 0≤x<n → ccnt(P, x, n) == ccnt(M, p[x], n)` -/
+theorem ccnt_perm (M : ι → ι → ℝ) (σ : Equiv.Perm ι) (x : ι) : ccnt (ixperm M σ) x = ccnt M (σ x) :=
+  ccntP_perm (fun t => t ≠ 0) M σ x
+/-- SMT axiom `… → cpos(P, x, n) == cpos(M, p[x], n)` -/
+theorem cpos_perm (M : ι → ι → ℝ) (σ : Equiv.Perm ι) (x : ι) : cpos (ixperm M σ) x = cpos M (σ x) :=
+  ccntP_perm (fun t => 0 < t) M σ x
+/-- SMT axiom `… → cneg(P, x, n) == cneg(M, p[x], n)` -/
+theorem cneg_perm (M : ι → ι → ℝ) (σ : Equiv.Perm ι) (x : ι) : cneg (ixperm M σ) x = cneg M (σ x) :=
+  ccntP_perm (fun t => t < 0) M σ x
+/-- SMT axiom `… → csum(P, x, n) == csum(M, p[x], n)` -/
+theorem csum_perm (M : ι → ι → ℝ) (σ : Equiv.Perm ι) (x : ι) : csum (ixperm M σ) x = csum M (σ x) :=
+  gsum_perm_col (fun t => t) M σ x
+
+/-- SMT axiom `isperm(p,n) → totF(P, n) == totF(M, n)` -/
+theorem totF_perm (F : ℝ → ℝ) (M : ι → ι → ℝ) (σ : Equiv.Perm ι) : totF F (ixperm M σ) = totF F M :=
+  gsum_perm_tot F M σ
+/-- SMT axiom `isperm(p,n) → totFp(P, n) == totFp(M, n)` -/
+theorem totFp_perm (F : ℝ → ℝ) (M : ι → ι → ℝ) (σ : Equiv.Perm ι) : totFp F (ixperm M σ) = totFp F M :=
+  gsum_perm_tot (fun t => if 0 < t then F t else 0) M σ
+/-- SMT axiom `isperm(p,n) → totFn(P, n) == totFn(M, n)` -/
+theorem totFn_perm (F : ℝ → ℝ) (M : ι → ι → ℝ) (σ : Equiv.Perm ι) : totFn F (ixperm M σ) = totFn F M :=
+  gsum_perm_tot (fun t => if t < 0 then F t else 0) M σ
+
+/-! ### 4. masked degree (`lemma_masked_degree`) -/
+
+/-- `dset(M, P, v, n)` = #{u : P u ∧ M u v ≠ 0} -/
+noncomputable def dset (M : ι → ι → ℝ) (A : ι → Prop) [DecidablePred A] (v : ι) : ℕ :=
+  (univ.filter (fun u => A u ∧ M u v ≠ 0)).card
+/-- `rset(M, P, v, n)` = #{u : P u ∧ M v u ≠ 0} -/
+noncomputable def rset (M : ι → ι → ℝ) (A : ι → Prop) [DecidablePred A] (v : ι) : ℕ :=
+  (univ.filter (fun u => A u ∧ M v u ≠ 0)).card
+/-- `wset(M, P, v, n)` = Σ_{u, P u} M u v -/
+noncomputable def wset (M : ι → ι → ℝ) (A : ι → Prop) [DecidablePred A] (v : ι) : ℝ :=
+  ∑ u, if A u then M u v else 0
+
+/-- `lemma_masked_degree`, conjunct `ccnt(C, v, n) == If(A[v], dset(M, A, v, n), 0)` -/
+theorem masked_ccnt (M C : ι → ι → ℝ) (A : ι → Prop) [DecidablePred A]
+    (hC : ∀ x y, C x y = if A x ∧ A y then M x y else 0) (v : ι) :
+    ccnt C v = if A v then dset M A v else 0 := by
+  by_cases hv : A v
+  · rw [if_pos hv]; unfold ccnt dset
+    congr 1; apply Finset.filter_congr; intro u _; rw [hC]; simp [hv]
+  · rw [if_neg hv]; unfold ccnt
+    rw [Finset.card_eq_zero, Finset.filter_eq_empty_iff]; intro u _; simp [hC, hv]
+
+/-- `lemma_masked_degree`, conjunct `cnt1(C[v], n) == If(A[v], rset(M, A, v, n), 0)` -/
+theorem masked_rcnt (M C : ι → ι → ℝ) (A : ι → Prop) [DecidablePred A]
+    (hC : ∀ x y, C x y = if A x ∧ A y then M x y else 0) (v : ι) :
+    cnt (C v) = if A v then rset M A v else 0 := by
+  by_cases hv : A v
+  · rw [if_pos hv]; unfold cnt rset
+    congr 1; apply Finset.filter_congr; intro u _; rw [hC]; simp [hv]
+  · rw [if_neg hv]; unfold cnt
+    rw [Finset.card_eq_zero, Finset.filter_eq_empty_iff]; intro u _; simp [hC, hv]
+
+/-- `lemma_masked_degree`, conjunct `csum(C, v, n) == If(A[v], wset(M, A, v, n), 0)` -/
+theorem masked_csum (M C : ι → ι → ℝ) (A : ι → Prop) [DecidablePred A]
+    (hC : ∀ x y, C x y = if A x ∧ A y then M x y else 0) (v : ι) :
+    csum C v = if A v then wset M A v else 0 := by
+  by_cases hv : A v
+  · rw [if_pos hv]; unfold csum wset
+    apply Finset.sum_congr rfl; intro u _; rw [hC]; simp [hv]
+  · rw [if_neg hv]; unfold csum
+    apply Finset.sum_eq_zero; intro u _; simp [hC, hv]
+
+/-! ### 5. monotonicity of restricted degrees (`lemma_degree_monotone`) -/
+
+/-- `lemma_degree_monotone`, conjunct `dset(M, P, v, n) <= dset(M, Q, v, n)` -/
+theorem dset_mono (M : ι → ι → ℝ) (P Q : ι → Prop) [DecidablePred P] [DecidablePred Q]
+    (h : ∀ u, P u → Q u) (v : ι) : dset M P v ≤ dset M Q v := by
+  unfold dset
+  apply Finset.card_le_card
+  intro u hu
+  simp only [Finset.mem_filter, Finset.mem_univ, true_and] at hu ⊢
+  exact ⟨h u hu.1, hu.2⟩
+
+/-- `lemma_degree_monotone`, conjunct `rset(M, P, v, n) <= rset(M, Q, v, n)` -/
+theorem rset_mono (M : ι → ι → ℝ) (P Q : ι → Prop) [DecidablePred P] [DecidablePred Q]
+    (h : ∀ u, P u → Q u) (v : ι) : rset M P v ≤ rset M Q v := by
+  unfold rset
+  apply Finset.card_le_card
+  intro u hu
+  simp only [Finset.mem_filter, Finset.mem_univ, true_and] at hu ⊢
+  exact ⟨h u hu.1, hu.2⟩
+
+/-- `lemma_degree_monotone`, conjunct `nonneg → wset(M, P, v, n) <= wset(M, Q, v, n)` -/
+theorem wset_mono (M : ι → ι → ℝ) (P Q : ι → Prop) [DecidablePred P] [DecidablePred Q]
+    (h : ∀ u, P u → Q u) (hM : ∀ x y, 0 ≤ M x y) (v : ι) : wset M P v ≤ wset M Q v := by
+  unfold wset
+  apply Finset.sum_le_sum
+  intro u _
+  by_cases hp : P u
+  · simp [hp, h u hp]
+  · by_cases hq : Q u
+    · simp [hp, hq, hM u v]
+    · simp [hp, hq]
+
+/-- `lemma_masked_degree(C, A, M, n)`: the three conjuncts together -/
+theorem masked_degree (M C : ι → ι → ℝ) (A : ι → Prop) [DecidablePred A]
+    (hC : ∀ x y, C x y = if A x ∧ A y then M x y else 0) (v : ι) :
+    ccnt C v = (if A v then dset M A v else 0) ∧ cnt (C v) = (if A v then rset M A v else 0)
+      ∧ csum C v = (if A v then wset M A v else 0) :=
+  ⟨masked_ccnt M C A hC v, masked_rcnt M C A hC v, masked_csum M C A hC v⟩
+
+/-- `lemma_degree_monotone(M, P, Q, n)`: the three conjuncts together -/
+theorem restricted_degree_mono (M : ι → ι → ℝ) (P Q : ι → Prop) [DecidablePred P] [DecidablePred Q]
+    (h : ∀ u, P u → Q u) (v : ι) :
+    dset M P v ≤ dset M Q v ∧ rset M P v ≤ rset M Q v ∧ ((∀ x y, 0 ≤ M x y) → wset M P v ≤ wset M Q v) :=
+  ⟨dset_mono M P Q h v, rset_mono M P Q h v, fun hM => wset_mono M P Q h hM v⟩
+
+end stats
+
+/-! ## Node-to-module sums, module degrees, modularity (spec functions `modsum modsumT degsum degsumT agg tsum Qmod`).
+In the SMT encoding labels are integers and module `m` (0-based) collects the nodes with `ci[y] = m + 1`; here labels are
+values of an arbitrary type `μ` with decidable equality, and `m : μ` is the label itself. -/
+section modules
+open BigOperators Finset
+variable {ι : Type} [Fintype ι] [DecidableEq ι] {μ : Type} [DecidableEq μ]
+
+/-- `modsum(W, ci, x, m, n)` = Σ_{y, c y = m} W x y -/
+noncomputable def modsum (W : ι → ι → ℝ) (c : ι → μ) (x : ι) (m : μ) : ℝ := ∑ y, if c y = m then W x y else 0
+/-- `modsumT(W, ci, x, m, n)` = Σ_{y, c y = m} W y x -/
+noncomputable def modsumT (W : ι → ι → ℝ) (c : ι → μ) (x : ι) (m : μ) : ℝ := ∑ y, if c y = m then W y x else 0
+/-- `degsum(W, ci, m, n)` = Σ_{x, c x = m} rowsum(W, x) -/
+noncomputable def degsum (W : ι → ι → ℝ) (c : ι → μ) (m : μ) : ℝ := ∑ x, if c x = m then ∑ y, W x y else 0
+/-- `degsumT(W, ci, m, n)` = Σ_{x, c x = m} colsum(W, x) -/
+noncomputable def degsumT (W : ι → ι → ℝ) (c : ι → μ) (m : μ) : ℝ := ∑ x, if c x = m then ∑ y, W y x else 0
+/-- `tsum(W, n)`: total weight -/
+noncomputable def tot (W : ι → ι → ℝ) : ℝ := ∑ x, ∑ y, W x y
+/-- `Qmod(W, ci, gamma, n)`: modularity (1/s) Σ_{x,y} (W x y − γ k_out x k_in y / s) [c x = c y], s = total weight -/
+noncomputable def Q (W : ι → ι → ℝ) (c : ι → μ) (γ : ℝ) : ℝ :=
+  (1 / tot W) * ∑ x, ∑ y, if c x = c y then (W x y - γ * (∑ y', W x y') * (∑ x', W x' y) / tot W) else 0
+
+lemma modsum_eq_nm (W : ι → ι → ℝ) (c : ι → μ) (x : ι) (m : μ) : modsum W c x m = nm W c x m := rfl
+lemma modsumT_eq_nm (W : ι → ι → ℝ) (c : ι → μ) (x : ι) (m : μ) :
+    modsumT W c x m = nm (fun a b => W b a) c x m := rfl
+lemma modsumT_eq_modsum_transpose (W : ι → ι → ℝ) (c : ι → μ) (x : ι) (m : μ) :
+    modsumT W c x m = modsum (fun a b => W b a) c x m := rfl
+lemma degsumT_eq_degsum_transpose (W : ι → ι → ℝ) (c : ι → μ) (m : μ) :
+    degsumT W c m = degsum (fun a b => W b a) c m := rfl
+lemma Q_eq_Qraw (W : ι → ι → ℝ) (c : ι → μ) (γ : ℝ) :
+    Q W c γ = (1 / tot W) * Qraw (fun x y => W x y - γ * sum1 (W x) * csum W y / tot W) c := rfl
+
+/-! ### 6a. a single label change: `Store(ci, u, l)` -/
+
+/-- SMT axiom `modsum(M, Store(c,u,l), x, m, n) == modsum(M,c,x,m,n) + If(l == m+1, M[x][u], 0) - If(c[u] == m+1, M[x][u], 0)` -/
+theorem modsum_update (W : ι → ι → ℝ) (c : ι → μ) (u : ι) (l : μ) (x : ι) (m : μ) :
+    modsum W (Function.update c u l) x m
+      = modsum W c x m + (if l = m then W x u else 0) - (if c u = m then W x u else 0) :=
+  gsum_update (fun z lab => if lab = m then W x z else 0) c u l
+
+/-- SMT axiom `modsumT(M, Store(c,u,l), x, m, n) == modsumT(M,c,x,m,n) + If(l == m+1, M[u][x], 0) - If(c[u] == m+1, M[u][x], 0)` -/
+theorem modsumT_update (W : ι → ι → ℝ) (c : ι → μ) (u : ι) (l : μ) (x : ι) (m : μ) :
+    modsumT W (Function.update c u l) x m
+      = modsumT W c x m + (if l = m then W u x else 0) - (if c u = m then W u x else 0) :=
+  gsum_update (fun z lab => if lab = m then W z x else 0) c u l
+
+/-- SMT axiom `degsum(M, Store(c,u,l), m, n) == degsum(M,c,m,n) + If(l == m+1, sum1(M[u],n), 0) - If(c[u] == m+1, sum1(M[u],n), 0)` -/
+theorem degsum_update (W : ι → ι → ℝ) (c : ι → μ) (u : ι) (l : μ) (m : μ) :
+    degsum W (Function.update c u l) m
+      = degsum W c m + (if l = m then sum1 (W u) else 0) - (if c u = m then sum1 (W u) else 0) :=
+  gsum_update (fun z lab => if lab = m then ∑ y, W z y else 0) c u l
+
+/-- SMT axiom `degsumT(M, Store(c,u,l), m, n) == degsumT(M,c,m,n) + If(l == m+1, csum(M,u,n), 0) - If(c[u] == m+1, csum(M,u,n), 0)` -/
+theorem degsumT_update (W : ι → ι → ℝ) (c : ι → μ) (u : ι) (l : μ) (m : μ) :
+    degsumT W (Function.update c u l) m
+      = degsumT W c m + (if l = m then csum W u else 0) - (if c u = m then csum W u else 0) :=
+  gsum_update (fun z lab => if lab = m then ∑ y, W y z else 0) c u l
+
+/-! ### 6b. row and column totals of the node-to-module matrix (`lemma_knm_sums`) -/
+
+/-- Σ_m modsum W c x m = rowsum(W, x) (every node carries exactly one label of the finite label type) -/
+theorem modsum_row_total [Fintype μ] (W : ι → ι → ℝ) (c : ι → μ) (x : ι) :
+    ∑ m, modsum W c x m = sum1 (W x) := by
+  unfold modsum sum1
+  rw [Finset.sum_comm]
+  apply Finset.sum_congr rfl; intro y _
+  simp
+
+/-- Σ_m modsumT W c x m = colsum(W, x) -/
+theorem modsumT_row_total [Fintype μ] (W : ι → ι → ℝ) (c : ι → μ) (x : ι) :
+    ∑ m, modsumT W c x m = csum W x :=
+  modsum_row_total (fun a b => W b a) c x
+
+/-- Σ_x modsum W c x m = degsumT W c m (module in-degree) -/
+theorem modsum_col_total (W : ι → ι → ℝ) (c : ι → μ) (m : μ) :
+    ∑ x, modsum W c x m = degsumT W c m := by
+  unfold modsum degsumT
+  rw [Finset.sum_comm]
+  apply Finset.sum_congr rfl; intro y _
+  by_cases h : c y = m <;> simp [h]
+
+/-- Σ_x modsumT W c x m = degsum W c m (module out-degree) -/
+theorem modsumT_col_total (W : ι → ι → ℝ) (c : ι → μ) (m : μ) :
+    ∑ x, modsumT W c x m = degsum W c m :=
+  modsum_col_total (fun a b => W b a) c m
+
+/-- `lemma_knm_sums(K, W, ci, n, 'out')`, row conjunct: `sum1(K[x], n) == sum1(W[x], n)` when `K[x][m] == modsum(W,ci,x,m,n)` -/
+theorem knm_row_total [Fintype μ] (K : ι → μ → ℝ) (W : ι → ι → ℝ) (c : ι → μ)
+    (hK : ∀ x m, K x m = modsum W c x m) (x : ι) : ∑ m, K x m = sum1 (W x) := by
+  simp_rw [hK]; exact modsum_row_total W c x
+
+/-- `lemma_knm_sums(K, W, ci, n, 'out')`, column conjunct: `csum(K, m, n) == degsumT(W, ci, m, n)` -/
+theorem knm_col_total (K : ι → μ → ℝ) (W : ι → ι → ℝ) (c : ι → μ)
+    (hK : ∀ x m, K x m = modsum W c x m) (m : μ) : ∑ x, K x m = degsumT W c m := by
+  simp_rw [hK]; exact modsum_col_total W c m
+
+/-- `lemma_knm_sums(K, W, ci, n, 'in')`, row conjunct: `sum1(K[x], n) == csum(W, x, n)` when `K[x][m] == modsumT(W,ci,x,m,n)` -/
+theorem knmT_row_total [Fintype μ] (K : ι → μ → ℝ) (W : ι → ι → ℝ) (c : ι → μ)
+    (hK : ∀ x m, K x m = modsumT W c x m) (x : ι) : ∑ m, K x m = csum W x := by
+  simp_rw [hK]; exact modsumT_row_total W c x
+
+/-- `lemma_knm_sums(K, W, ci, n, 'in')`, column conjunct: `csum(K, m, n) == degsum(W, ci, m, n)` -/
+theorem knmT_col_total (K : ι → μ → ℝ) (W : ι → ι → ℝ) (c : ι → μ)
+    (hK : ∀ x m, K x m = modsumT W c x m) (m : μ) : ∑ x, K x m = degsum W c m := by
+  simp_rw [hK]; exact modsumT_col_total W c m
+
+/-! ### 6c. empty modules (`lemma_modularity`, "empty") -/
+
+/-- `(∀ y, ci[y] != m+1) → modsum(W, ci, x, m, n) == 0` -/
+theorem modsum_empty (W : ι → ι → ℝ) (c : ι → μ) (m : μ) (h : ∀ y, c y ≠ m) (x : ι) : modsum W c x m = 0 := by
+  unfold modsum; apply Finset.sum_eq_zero; intro y _; simp [h y]
+/-- `(∀ y, ci[y] != m+1) → modsumT(W, ci, x, m, n) == 0` -/
+theorem modsumT_empty (W : ι → ι → ℝ) (c : ι → μ) (m : μ) (h : ∀ y, c y ≠ m) (x : ι) : modsumT W c x m = 0 := by
+  unfold modsumT; apply Finset.sum_eq_zero; intro y _; simp [h y]
+/-- `(∀ y, ci[y] != m+1) → degsum(W, ci, m, n) == 0` -/
+theorem degsum_empty (W : ι → ι → ℝ) (c : ι → μ) (m : μ) (h : ∀ y, c y ≠ m) : degsum W c m = 0 := by
+  unfold degsum; apply Finset.sum_eq_zero; intro y _; simp [h y]
+/-- `(∀ y, ci[y] != m+1) → degsumT(W, ci, m, n) == 0` -/
+theorem degsumT_empty (W : ι → ι → ℝ) (c : ι → μ) (m : μ) (h : ∀ y, c y ≠ m) : degsumT W c m = 0 := by
+  unfold degsumT; apply Finset.sum_eq_zero; intro y _; simp [h y]
+
+/-! ### 6d. symmetric networks (`lemma_modularity`, "symm") -/
+
+/-- `sym → modsumT(W, ci, x, m, n) == modsum(W, ci, x, m, n)` -/
+theorem modsumT_symm (W : ι → ι → ℝ) (hW : ∀ x y, W x y = W y x) (c : ι → μ) (x : ι) (m : μ) :
+    modsumT W c x m = modsum W c x m := by
+  unfold modsumT modsum; apply Finset.sum_congr rfl; intro y _; rw [hW y x]
+/-- `sym → degsumT(W, ci, m, n) == degsum(W, ci, m, n)` -/
+theorem degsumT_symm (W : ι → ι → ℝ) (hW : ∀ x y, W x y = W y x) (c : ι → μ) (m : μ) :
+    degsumT W c m = degsum W c m := by
+  unfold degsumT degsum; apply Finset.sum_congr rfl; intro x _
+  congr 1; apply Finset.sum_congr rfl; intro y _; rw [hW y x]
+/-- `sym → csum(W, x, n) == sum1(W[x], n)` -/
+theorem csum_symm (W : ι → ι → ℝ) (hW : ∀ x y, W x y = W y x) (x : ι) : csum W x = sum1 (W x) := by
+  unfold csum sum1; apply Finset.sum_congr rfl; intro y _; rw [hW y x]
+/-- `sym → agg(W, ci, a, b, n) == agg(W, ci, b, a, n)` -/
+theorem agg_symm (W : ι → ι → ℝ) (hW : ∀ x y, W x y = W y x) (c : ι → μ) (a b : μ) :
+    agg W c a b = agg W c b a := by
+  unfold agg
+  rw [Finset.sum_comm]
+  apply Finset.sum_congr rfl; intro y _
+  apply Finset.sum_congr rfl; intro x _
+  rw [hW x y]
+  by_cases h1 : c x = a <;> by_cases h2 : c y = b <;> simp [h1, h2]
+
+/-! ### 7. relabelling invariance (`lemma_relabel`) -/
+
+/-- `lemma_relabel(W, c1, c2, gamma, n)`: `(∀ y z, c1[y]==c1[z] ↔ c2[y]==c2[z]) → Qmod(W,c1,g,n) == Qmod(W,c2,g,n)`;
+the two labellings may live in different label types -/
+theorem Q_relabel {μ₁ μ₂ : Type} [DecidableEq μ₁] [DecidableEq μ₂] (W : ι → ι → ℝ) (c₁ : ι → μ₁) (c₂ : ι → μ₂)
+    (γ : ℝ) (h : ∀ y z, c₁ y = c₁ z ↔ c₂ y = c₂ z) : Q W c₁ γ = Q W c₂ γ := by
+  unfold Q
+  congr 1
+  apply Finset.sum_congr rfl; intro x _
+  apply Finset.sum_congr rfl; intro y _
+  by_cases h1 : c₁ x = c₁ y
+  · rw [if_pos h1, if_pos ((h x y).mp h1)]
+  · rw [if_neg h1, if_neg (fun e => h1 ((h x y).mpr e))]
+
+/-- same statement for the un-normalised within-module sum of an arbitrary kernel -/
+theorem Qraw_relabel {μ₁ μ₂ : Type} [DecidableEq μ₁] [DecidableEq μ₂] (B : ι → ι → ℝ) (c₁ : ι → μ₁) (c₂ : ι → μ₂)
+    (h : ∀ y z, c₁ y = c₁ z ↔ c₂ y = c₂ z) : Qraw B c₁ = Qraw B c₂ := by
+  unfold Qraw
+  apply Finset.sum_congr rfl; intro x _
+  apply Finset.sum_congr rfl; intro y _
+  by_cases h1 : c₁ x = c₁ y
+  · rw [if_pos h1, if_pos ((h x y).mp h1)]
+  · rw [if_neg h1, if_neg (fun e => h1 ((h x y).mpr e))]
+
+/-! ### 8. the gain lemma in the shape of the SMT axiom -/
+
+/-- GAIN LEMMA, un-normalised: `Qraw_move` + `nm_modularity` for the modularity kernel
+`B x y = W x y − γ ko x ki y / s`, `ko = ` row sums, `ki = ` column sums of `W` (`s` arbitrary). -/
+theorem Qraw_gain (W : ι → ι → ℝ) (γ s : ℝ) (c : ι → μ) (u : ι) (l : μ) (hl : l ≠ c u) :
+    Qraw (fun x y => W x y - γ * sum1 (W x) * csum W y / s) (Function.update c u l)
+      - Qraw (fun x y => W x y - γ * sum1 (W x) * csum W y / s) c
+    = ((modsum W c u l - modsum W c u (c u) + W u u)
+          - γ * sum1 (W u) * (degsumT W c l - degsumT W c (c u) + csum W u) / s)
+      + ((modsumT W c u l - modsumT W c u (c u) + W u u)
+          - γ * csum W u * (degsum W c l - degsum W c (c u) + sum1 (W u)) / s) := by
+  have h1 : ∀ m, nm (fun x y => W x y - γ * sum1 (W x) * csum W y / s) c u m
+      = modsum W c u m - γ * sum1 (W u) * degsumT W c m / s :=
+    fun m => nm_modularity W (fun x => sum1 (W x)) (fun y => csum W y) γ s c u m
+  have hT : (fun x y => (fun x y => W x y - γ * sum1 (W x) * csum W y / s) y x)
+      = fun x y => (fun a b => W b a) x y - γ * csum W x * sum1 (W y) / s := by
+    funext x y; ring
+  have h2 : ∀ m, nm (fun x y => (fun x y => W x y - γ * sum1 (W x) * csum W y / s) y x) c u m
+      = modsumT W c u m - γ * csum W u * degsum W c m / s := by
+    intro m
+    rw [hT]
+    exact nm_modularity (fun a b => W b a) (fun x => csum W x) (fun y => sum1 (W y)) γ s c u m
+  rw [Qraw_move _ c u l hl, h1, h1, h2, h2]
+  ring
+
+/-- GAIN LEMMA, exactly the SMT axiom
+`0≤u<n ∧ l != c[u] ∧ tsum(M,n) != 0 → Qmod(M, Store(c,u,l), g, n) - Qmod(M, c, g, n) == udiv(out_part + in_part, tsum(M,n))`
+(`umul`/`udiv` read as real multiplication / division; the hypothesis `s ≠ 0` is not needed in Lean). -/
+theorem Q_gain (W : ι → ι → ℝ) (γ : ℝ) (c : ι → μ) (u : ι) (l : μ) (hl : l ≠ c u) :
+    Q W (Function.update c u l) γ - Q W c γ
+    = (((modsum W c u l - modsum W c u (c u) + W u u)
+          - γ * sum1 (W u) * (degsumT W c l - degsumT W c (c u) + csum W u) / tot W)
+      + ((modsumT W c u l - modsumT W c u (c u) + W u u)
+          - γ * csum W u * (degsum W c l - degsum W c (c u) + sum1 (W u)) / tot W)) / tot W := by
+  rw [Q_eq_Qraw, Q_eq_Qraw, ← mul_sub, Qraw_gain W γ (tot W) c u l hl]
+  ring
+
+/-- `lemma_q_from_aggregate` restated with `Q`: for `s = tsum(W, n) ≠ 0`,
+`trace(w)/s − γ·sum((w/s)·(w/s)) = Qmod(W, ci, γ, n)` where `w = agg W c` -/
+theorem q_from_aggregate_Q [Fintype μ] (W : ι → ι → ℝ) (c : ι → μ) (γ : ℝ) (hs : tot W ≠ 0) :
+    (∑ a, agg W c a a) / tot W - γ * (∑ a, ∑ b, ∑ t, (agg W c a t / tot W) * (agg W c t b / tot W))
+      = Q W c γ :=
+  q_from_aggregate W c γ (tot W) hs
+
+/-- `lemma_q_from_aggregate(w, X, W, ci, gamma, s, m, n)` in the shape of the SMT lemma instance: `w[a][b] == agg(W,ci,a,b,n)`,
+`X[a][b] == udiv(w[a][b], s)`, `s == tsum(W,n) != 0`  ⟹  `udiv(trace1(w), s) - umul(g, sumdot(X, X)) == Qmod(W, ci, g, n)` -/
+theorem q_from_aggregate_smt [Fintype μ] (w X : μ → μ → ℝ) (W : ι → ι → ℝ) (c : ι → μ) (γ s : ℝ)
+    (hw : ∀ a b, w a b = agg W c a b) (hX : ∀ a b, X a b = w a b / s) (hs : s = tot W) (hs0 : s ≠ 0) :
+    (∑ a, w a a) / s - γ * (∑ a, ∑ b, ∑ t, X a t * X t b) = Q W c γ := by
+  subst hs
+  simp_rw [hX, hw]
+  exact q_from_aggregate_Q W c γ hs0
+
+end modules
+
+/-! ## The uninterpreted product / quotient `umul`, `udiv` of the SMT encoding are real multiplication / division -/
+section arith
+/-- SMT axiom `ra > 0 ∧ rb > 0 → udiv(ra, rb) > 0` -/
+theorem udiv_pos (a b : ℝ) (ha : 0 < a) (hb : 0 < b) : 0 < a / b := div_pos ha hb
+/-- SMT axiom `ra >= 0 ∧ rb > 0 → udiv(ra, rb) >= 0` -/
+theorem udiv_nonneg (a b : ℝ) (ha : 0 ≤ a) (hb : 0 < b) : 0 ≤ a / b := div_nonneg ha hb.le
+/-- SMT axiom `umul(ra, rb) == umul(rb, ra)` -/
+theorem umul_comm (a b : ℝ) : a * b = b * a := mul_comm a b
+end arith
+
+-- NOT PROVED HERE: nothing was left out; every quantified fact of `spec_axioms()` and every `lemma_*` instance of
+-- engine/pyvc/core.py has a theorem above (see README.md for the table).  Three SMT axioms are not theorems but
+-- definitions / typing facts of this formalisation:
+--   * `F(0) == 0`                      : an assumption on the uninterpreted statistic `F` (no theorem above needs it);
+--   * `ixperm(M,p)[x][y] == M[p[x]][p[y]]` : the definition `ixperm`;
+--   * `isperm(p,n) ∧ 0≤x<n → 0≤p[x]<n` : `σ : Equiv.Perm ι` maps `ι` to `ι` by its type.
 
 end VerifLemmas
